@@ -220,27 +220,33 @@ _GL = np.polynomial.legendre.leggauss(20)
 def gl_integral(pdf, a, b, tol=1e-11, max_panels=600):
     """Adaptive Gauss-Legendre quadrature of a vectorised density: a panel is accepted when the 20-point
     rule on it and on its two halves agree; kinks / cusps (log-Laplace mode, support end points) are
-    isolated by bisection.  -> (integral, error estimate)"""
+    isolated by bisection.  All panels of one refinement level are evaluated in ONE call of `pdf`.
+    -> (integral, error estimate)"""
     gx, gw = _GL
-    stack = [(lo, hi, 0) for lo, hi in zip(np.linspace(a, b, 9)[:-1], np.linspace(a, b, 9)[1:])]
+    edges = np.linspace(a, b, 9)
+    lo, hi = edges[:-1], edges[1:]
     total = err = 0.0
     used = 0
-    while stack:
-        lo, hi, depth = stack.pop()
+    for depth in range(50):
+        if not len(lo):
+            break
         mid = 0.5 * (lo + hi)
-        nodes = np.concatenate([0.5 * (lo + hi) + 0.5 * (hi - lo) * gx, 0.5 * (lo + mid) + 0.5 * (mid - lo) * gx,
-                                0.5 * (mid + hi) + 0.5 * (hi - mid) * gx])
-        y = np.asarray(pdf(nodes), dtype=float)
-        g1 = 0.5 * (hi - lo) * float(np.dot(gw, y[:20]))
-        g2 = 0.5 * (mid - lo) * float(np.dot(gw, y[20:40])) + 0.5 * (hi - mid) * float(np.dot(gw, y[40:]))
-        used += 1
-        d = abs(g1 - g2)
-        if d <= tol * (hi - lo) / (b - a) + 1e-16 or depth >= 48 or used + len(stack) >= max_panels or not d == d:
-            total += g2
-            err += d
-        else:
-            stack.append((lo, mid, depth + 1))
-            stack.append((mid, hi, depth + 1))
+
+        def nodes(l, h):
+            return (0.5 * (l + h))[:, None] + (0.5 * (h - l))[:, None] * gx[None, :]
+        y = np.asarray(pdf(np.concatenate([nodes(lo, hi).ravel(), nodes(lo, mid).ravel(), nodes(mid, hi).ravel()])),
+                       dtype=float).reshape(3, len(lo), 20)
+        g1 = 0.5 * (hi - lo) * (y[0] @ gw)
+        g2 = 0.5 * (mid - lo) * (y[1] @ gw) + 0.5 * (hi - mid) * (y[2] @ gw)
+        used += len(lo)
+        d = np.abs(g1 - g2)
+        accept = (d <= tol * (hi - lo) / (b - a) + 1e-16) | ~(d == d)
+        if depth == 49 or used >= max_panels:
+            accept[:] = True
+        total += float(np.sum(g2[accept]))
+        err += float(np.nansum(d[accept]))
+        keep = ~accept
+        lo, hi = np.concatenate([lo[keep], mid[keep]]), np.concatenate([mid[keep], hi[keep]])
     return total, err
 
 
@@ -345,7 +351,8 @@ def laws(fns, data, rng, report, deep=False):
     r = call(fns.logpdf, x)
     n += len(x)
     if r[0] == 'err':
-        report('logpdf:raises', {'x': x[:5].tolist()}, r[1], 'log_probability_density = log(probability_density)')
+        report('logpdf:raises-' + r[1].split(':')[0], {'x': x[:5].tolist()}, r[1],
+               'log_probability_density = log(probability_density)')
     else:
         lp = r[1]
         okm = f > 1e-290
@@ -964,6 +971,8 @@ def class_key(spec, model, kind):
             'logpdf': 'log_probability_density', 'integral': 'probability_density', 'constant': 'constant-fit'}.get(q, q)
     if q == 'integral':
         what = 'integral-vs-cdf' + (':' + what if what else '')
+    if what == 'q-above-cdf-at-upper-bound':
+        meth = ''                      # same cause for both solvers
     key = f'{cls}.{name}{meth}:{what}' if what else f'{cls}.{name}{meth}'
     if spec['cls'] == 'GaussianKDE' and spec['opts'].get('weights') is not None and q == 'cdf':
         key += ':weighted'
